@@ -92,7 +92,8 @@ class QHalf(Q.QOracle):
       else:
         self.ref1_other.append(None)
     self.alpha_now = [s["kw"].get("alpha") for s in w.specs]
-    self.isvar = [False] * w.n()
+    # use_variables=True at construction: variable-backed from the first build
+    self.isvar = [bool(s["kw"].get("use_variables")) for s in w.specs]
     self.trained = [False] * w.n()
 
   def mirror(self, op):
